@@ -64,6 +64,11 @@ def ladder_decl(rng, ty):
               [{"r": "bounds", "start": c[8], "end": None, "incl": False}]]
     if rng.random() < 0.5:
         shapes[0] = [{"r": "bounds", "start": None, "end": c[0], "incl": False}]
+    # branches that contain exactly one value written as bounds: `x..=x` (x = the excluded end of the previous branch), and for
+    # the integer types `y..y+1`
+    shapes.insert(5, [{"r": "bounds", "start": c[7], "end": c[7], "incl": True}])
+    if not rty.startswith("f"):
+        shapes.insert(3, [{"r": "bounds", "start": c[2] + 1, "end": c[2] + 2, "incl": False}])
     if rty.startswith("f") or rty.startswith("i"):
         # an exact negative count first, written as an integer literal (also for the float types)
         shapes.insert(0, [{"r": "exact", "v": (float if rty.startswith("f") else int)(min(int(c[0]) - rng.randint(3, 20), -1)), "form": "int"}])
